@@ -4,6 +4,8 @@
 import CprocVerif.Lemmas.Lower2For
 import CprocVerif.Lemmas.Lower2Switch
 import CprocVerif.Lemmas.Lower2IncDec
+import CprocVerif.Lemmas.Lower2Func
+import CprocVerif.Lemmas.Lower2Call
 
 set_option linter.unusedSimpArgs false
 
@@ -11,34 +13,37 @@ namespace CprocVerif.LowerMach2
 open CprocVerif.Qbe CprocVerif.Lower CprocVerif.Lower2 CprocVerif.CSem CprocVerif.CSem2 CprocVerif.CInt
 open CprocVerif.LowerArith CprocVerif.LowerMach CprocVerif.LowerMem
 
-/-- every statement form is covered -/
-theorem frag_all (st : Stmt) : frag st = true := by
-  induction st with
-  | seq a b iha ihb => simp [frag, iha, ihb]
-  | ite e a iha => simpa [frag] using iha
-  | itee e a b iha ihb => simp [frag, iha, ihb]
-  | while_ e b ihb => simpa [frag] using ihb
-  | dowhile b e ihb => simpa [frag] using ihb
-  | for_ e st b ihs ihb => simp [frag, ihs, ihb]
-  | switch_ e b ihb => simpa [frag] using ihb
-  | _ => rfl
+/-- Executions with fuel `fuel` of the statements of every activation are simulated — for a single function
+    (`T.P = []`: no call has a meaning) or when there is room for `fuel` nested activations. -/
+def AllStmt (fuel : Nat) : Prop := ∀ T : Stat, (T.P = [] ∨ fuel ≤ T.d) → SimStmt T fuel
 
-section
-variable (T : Stat)
+/-- the activations of the functions of the program, from the simulation of their statements -/
+theorem funcSim_of_all (T : Stat) (n : Nat) (hd : 0 < T.d) (hn : n + 1 ≤ T.d) (hall : AllStmt n) :
+    FuncSim T n := by
+  intro fn g sid ρ v M rest tr env0 hlk henv hmem hroom htop hargs hex
+  obtain ⟨hwt, hcalls, hK⟩ := T.hP fn g hlk
+  have hroom' : Room T.K (T.d - 1 + 1) M := by
+    have : T.d - 1 + 1 = T.d := by omega
+    rw [this]; exact hroom
+  exact sim_func T.S.cs sid g ρ v hwt henv T.P T.S.p T.S.ext T.K (T.d - 1) M T.hfuncs T.hP (frag_of_callsOK _ _ hcalls) hK hmem
+    hroom' htop rest tr env0 hargs n (fun T' _ hd' => hall T' (Or.inr (by omega))) hex
 
-/-- Every execution of a statement of the fragment is simulated. -/
-theorem sim_stmt : ∀ fuel, SimStmt T fuel := by
+/-- Every execution of a statement is simulated. -/
+theorem sim_all : ∀ fuel, AllStmt fuel := by
   intro fuel
   induction fuel using Nat.strongRecOn with
   | ind fuel ihs =>
+  intro T hT
   cases fuel with
   | zero =>
     intro st s out lp brk cont c nd nd' pre post env M hex
     simp only [exec] at hex
     cases hex
   | succ n =>
-    have ih : SimStmt T n := ihs n (Nat.lt_succ_self n)
-    have ihle : ∀ m, m ≤ n → SimStmt T m := fun m hm => ihs m (Nat.lt_succ_of_le hm)
+    have hTm : ∀ m, m ≤ n → (T.P = [] ∨ m ≤ T.d) := fun m hm =>
+      hT.elim Or.inl (fun h => Or.inr (by omega))
+    have ih : SimStmt T n := ihs n (Nat.lt_succ_self n) T (hTm n (Nat.le_refl _))
+    have ihle : ∀ m, m ≤ n → SimStmt T m := fun m hm => ihs m (Nat.lt_succ_of_le hm) T (hTm m hm)
     intro st s out lp brk cont c nd nd' pre post env M hex hfr hwt hp hext hits hlp inv
     cases st with
     | skip => exact sim_skip T n hex hp inv
@@ -61,8 +66,13 @@ theorem sim_stmt : ∀ fuel, SimStmt T fuel := by
     | case_ u => exact sim_label T n (.case_ u) (Or.inl ⟨u, rfl⟩) hex hp hits inv
     | default_ => exact sim_label T n .default_ (Or.inr rfl) hex hp hits inv
     | switch_ e b => exact sim_switch T n ihle e b hex hfr hwt hp hext hits hlp inv
-    | call dst rt fn args => simp only [exec] at hex; cases hex
+    | call dst rt fn args =>
+      rcases hT with hP | hd
+      · simp only [exec, hP, lookup, List.find?_nil] at hex
+        cases hex
+      · exact sim_call T n (funcSim_of_all T n (by omega) hd (ihs n (Nat.lt_succ_self n))) (by omega)
+          dst rt fn args hex hfr hwt hp hext hits inv
 
-end
+theorem sim_stmt (T : Stat) (fuel : Nat) (hT : T.P = [] ∨ fuel ≤ T.d) : SimStmt T fuel := sim_all fuel T hT
 
 end CprocVerif.LowerMach2
